@@ -20,6 +20,7 @@ import (
 	"pgregory.net/rapid"
 
 	"verif/harness/internal/ev"
+	"verif/harness/internal/loglevel"
 )
 
 type polRemedy struct {
@@ -133,6 +134,9 @@ func TestPolicyFoldThroughDispatcher(t *testing.T) {
 	rapid.Check(t, func(t *rapid.T) {
 		c := genPolCase().Draw(t, "case")
 		repr := func() string { b, _ := json.Marshal(c); return string(b) }
+		level := loglevel.Gen().Draw(t, "log level")
+		r.Class("log level " + level)
+		defer loglevel.Set(level)()
 		r.Case()
 		pc := &sharedConfig.PoliciesConfig{Accounts: map[sharedConfig.AccountID]sharedConfig.Account{}}
 		for i, toks := range c.Accounts {
